@@ -160,6 +160,23 @@ func (y *Yaml) String() (string, error) {
 	return "", errors.New("type assertion to string failed")
 }
 
+// Text returns what was written where a name or a message is expected: the text of any scalar, also one
+// that YAML resolves to a number, a boolean or a date when it is written without quotes (a validation
+// named 404, message: 2024-01-01), and the scalar an alias stands for. Null is not a text.
+func (y *Yaml) Text() (string, error) {
+	if !y.IsFound() {
+		return "", errors.New("not node found")
+	}
+	node := y.data
+	if node.Kind == yaml.AliasNode && node.Alias != nil {
+		node = node.Alias
+	}
+	if node.Kind == yaml.ScalarNode && node.Tag != "!!null" {
+		return node.Value, nil
+	}
+	return "", errors.New("type assertion to text failed")
+}
+
 func (y *Yaml) Float() (float64, error) {
 	if !y.IsFound() {
 		return -1, errors.New("not node found")
